@@ -706,13 +706,15 @@ pub fn run_check(check: &dyn Erased, tier: Tier) -> i32 {
     let mut reported = 0u64;
     let mut known_hits: BTreeSet<String> = BTreeSet::new();
     // one representative (lowest index) per rule
-    let mut by_rule: BTreeMap<String, (u64, Violation, Value)> = BTreeMap::new();
+    // (if the representative cannot be repeated - the code under simulation may keep state between the
+    // evaluations of one thread - the next violating evaluations of that rule are tried before giving up)
+    let mut by_rule: BTreeMap<String, Vec<(u64, Violation, Value)>> = BTreeMap::new();
     for (i, v, sc) in &res.violations {
-        by_rule
-            .entry(v.rule.clone())
-            .or_insert((*i, v.clone(), sc.clone()));
+        by_rule.entry(v.rule.clone()).or_default().push((*i, v.clone(), sc.clone()));
     }
-    for (rule, (index, viol, sc)) in by_rule.iter().take(6) {
+    for (rule, cands) in by_rule.iter().take(6) {
+      let ncand = cands.len().min(8);
+      'cands: for (ci, (index, viol, sc)) in cands.iter().take(ncand).enumerate() {
         let max_exec = if std::env::var("VERIF_NOSHRINK").is_ok() { 0 } else { 600 };
         let (min_sc, execs) = shrink(check, sc.clone(), rule, max_exec);
         let msg = check
@@ -740,17 +742,21 @@ pub fn run_check(check: &dyn Erased, tier: Tier) -> i32 {
                 );
                 println!("VIOLATION property={} replay={}", check.id(), path.display());
                 reported += 1;
-                continue;
+                break 'cands;
             }
             let _ = std::fs::remove_file(&path);
+            if ci + 1 < ncand {
+                continue 'cands;
+            }
             println!(
-                "HARNESS-ERROR property={} rule={} index={} does not replay deterministically",
+                "HARNESS-ERROR property={} rule={} index={} does not replay deterministically ({} violating evaluations of this rule tried)",
                 check.id(),
                 rule,
-                index
+                index,
+                ncand
             );
             exit = 2;
-            continue;
+            break 'cands;
         }
         // known finding? counterfactual: neutralise the trigger, must pass then
         let mut attributed = None;
@@ -795,6 +801,8 @@ pub fn run_check(check: &dyn Erased, tier: Tier) -> i32 {
                 }
             }
         }
+        break 'cands;
+      }
     }
     let runs_per_hour = if res.wall_s > 0.0 {
         (res.runs as f64 / res.wall_s * 3600.0) as u64
